@@ -160,7 +160,8 @@ Chain(i) == IF i <= 1 THEN <<>> ELSE Append(Chain(hist[i].pred), i)
 \* fsg_seg_bp2itor
 SegOf(i) == LET e == hist[i]
                 ph == hist[e.pred]
-            IN [b |-> IF e.arc[3] = EPS THEN "(NULL)" ELSE e.arc[3], k |-> Kind(e.arc),
+            IN [w |-> IF e.arc[3] = EPS THEN "(NULL)" ELSE e.arc[3],
+                b |-> IF e.arc[3] = EPS THEN "(NULL)" ELSE e.arc[3], k |-> Kind(e.arc),
                 ef |-> e.fr, sf |-> IF ph.fr + 1 > e.fr THEN e.fr ELSE ph.fr + 1,
                 lscr |-> e.arc[4], ascr |-> e.sc - ph.sc - e.arc[4]]
 SegsOf(i) == LET c == Chain(i) IN [j \in DOMAIN c |-> SegOf(c[j])]
